@@ -836,10 +836,11 @@ Proof.
            apply Fg2; [rewrite Hq1; apply orb_true_r|exact Hq2].
 Qed.
 
-Lemma case_loop : forall fv b e, P_b b -> P_b e -> P_s (SLoop fv b e).
+Lemma case_loop : forall k b e, P_b b -> P_b e -> P_s (SLoop k b e).
 Proof.
-  intros fv b e IHb IHe Hok st. cbn [lower_ok_s] in Hok. apply andb_true_iff in Hok. destruct Hok as [Hokb Hoke].
+  intros k b e IHb IHe Hok st. cbn [lower_ok_s] in Hok. apply andb_true_iff in Hok. destruct Hok as [Hokb Hoke].
   cbn [visit_s].
+  remember (is_always k) as fv eqn:Hfv. remember (is_forever k) as fo eqn:Hfo.
   set (m0 := loop_body_entry st).
   set (m1 := visit_b b m0).
   set (o2 := loop_after_body st m1).
@@ -849,7 +850,7 @@ Proof.
   set (st4 := loop_st4 fv st2 o2 e2).
   set (r1 := visit_b b (enter st4)).
   set (body := cur o2).
-  set (fin := loop_finish fv (loop_scopes m1) (restore st4 r1)).
+  set (fin := loop_finish fo (loop_scopes m1) (restore st4 r1)).
   destruct (IHb Hokb m0) as (Gb1 & Kb1 & _ & _ & Sb1). fold m1 in Gb1, Kb1, Sb1.
   destruct (IHe Hoke e1) as (Ge & Ke & Le & _ & Se). fold e2 in Ge, Ke, Le, Se.
   destruct (IHb Hokb (enter st4)) as (Gb2 & Kb2 & Lb2 & _ & Sb2). fold r1 in Gb2, Kb2, Lb2, Sb2.
@@ -945,6 +946,28 @@ Proof.
     - intros v d0 a Hs [->|(Lb & Sa)].
       + apply (combine_sat _ x (cur x)); [left; reflexivity|apply live_keeps; exact Lx|apply kle_refl|exact Hs].
       + apply (combine_sat _ x body); [right; left; reflexivity|apply live_keeps; exact Lb|exact Kbody|exact Sa]. }
+  (* a loop that runs at least once: after at least one round the binding is one possible after
+     the body, and the else clause starts from the state after the body *)
+  assert (FA : k = LAlways -> forall th, iters1_of iters (fun x => path_b b ONorm x \/ path_b b OCont x) th ->
+            live body /\ (forall v d0, satv v d0 (cur st) -> satv v (applyv th v d0) body) /\
+            live (cur st2) /\ live (cur e1) /\ (forall v a, satv v a body -> satv v a (cur e1)) /\
+            kle (vars (cur st2)) (vars (cur e1))).
+  { intros Hk th (t1 & t2 & Hi1 & Hr & ->). subst k. cbn in Hfv. subst fv.
+    assert (Ho : ONorm = ONorm \/ is_jump ONorm) by (left; reflexivity).
+    assert (HF : live body /\ forall v d0, satv v d0 (cur st) -> satv v (applyv (t1 ++ t2) v d0) body).
+    { destruct Hr as [Hr|Hr].
+      - split; [apply (F1 ONorm t2 (or_introl eq_refl) Hr)|].
+        intros v d0 Hs. rewrite applyv_app. apply (F2' ONorm t2 v d0 _ (or_introl eq_refl) Hr Hs). apply F2; assumption.
+      - assert (Hc : OCont = ONorm \/ is_jump OCont) by (right; right; reflexivity).
+        split; [apply (F1 OCont t2 Hc Hr)|].
+        intros v d0 Hs. rewrite applyv_app. apply (F2' OCont t2 v d0 _ Hc Hr Hs). apply F2; assumption. }
+    destruct HF as (Lb & Sb). split; [exact Lb|]. split; [exact Sb|].
+    unfold e1, loop_else_entry, st2, loop_st2. rewrite andb_false_r.
+    set (c2 := combine [cur o2] (restore st o2)).
+    assert (Lc2 : live (cur c2)).
+    { eapply combine_live with (sc := body); [left; reflexivity|apply live_keeps; exact Lb|exact Hl]. }
+    split; [exact Lc2|]. split; [apply enter_live; exact Lc2|]. split; [|apply kle_refl].
+    intros v a Hs. eapply combine_sat with (sc := body); [left; reflexivity|apply live_keeps; exact Lb|exact Kbody|exact Hs]. }
   assert (Ke1 : kle (vars (cur st)) (vars (cur e1))).
   { unfold e1, loop_else_entry. destruct (negb (is_nil e) && negb fv).
     - eapply kle_trans; [exact K2|]. apply (combine_kle _ (enter st2)).
@@ -955,15 +978,29 @@ Proof.
   - intros t v u d0 H Hs. cbn [upath_s] in H. destruct H as (th & t2 & Hi & -> & H).
     unfold fin. rewrite loop_finish_u2d. cbn [restore u2d]. rewrite applyv_app.
     pose proof (F2 th Hi v d0 Hs) as Hd.
-    destruct H as [H|(-> & H)].
+    destruct H as [H|(Hel & H)].
     + destruct Hd as [E|(Lb & Sa)].
       * rewrite E. apply Gm1. eapply Ub1; eauto.
       * destruct (F3 Lb) as (L4' & S4). destruct (Sb2 (enter_live _ L4')) as ((Ub2 & _) & _). apply (Ub2 t2 v u _ H). apply S4. exact Sa.
-    + destruct e as [|es er]; [destruct H|]. destruct (F4 eq_refl eq_refl) as (Le1 & Se1).
-      destruct (Se Le1) as ((Ue & _) & _). apply Gb2. eapply Ue; eauto.
+    + destruct k; cbn [else_ok] in Hel; [|clear Hd|destruct Hel].
+      * cbn in Hfv. subst fv.
+        destruct e as [|es er]; [destruct H|]. destruct (F4 eq_refl eq_refl) as (Le1 & Se1).
+        destruct (Se Le1) as ((Ue & _) & _). apply Gb2. eapply Ue; eauto.
+      * destruct (FA eq_refl th Hel) as (Lb & Sb & _ & Le1 & Se1 & _).
+        destruct (Se Le1) as ((Ue & _) & _). apply Gb2. eapply Ue; eauto.
   - intros t H. cbn [path_s] in H. destruct H as (th & t2 & Hi & -> & H).
-    destruct H as [(-> & He)|[(_ & Hbrk)|([X|X] & _)]]; try discriminate.
-    + unfold fin, loop_finish. cbn [andb restore cur].
+    destruct H as [(Hel & He)|[(_ & Hbrk)|([X|X] & _)]]; try discriminate.
+    + destruct k; cbn [else_ok] in Hel; [| |destruct Hel].
+      2:{ destruct (FA eq_refl th Hel) as (Lb & Sb & Lst2 & Le1 & Se1 & Kst2).
+          destruct (Se Le1) as ((_ & Ne) & _). destruct (Ne t2 He) as (L2 & S2).
+          cbn in Hfo. subst fo. unfold fin, loop_finish. cbn [andb restore cur].
+          split.
+          - apply (combine_live _ (restore st2 e2) (cur e2)); [right; left; reflexivity|apply live_keeps; exact L2|exact Lst2].
+          - intros v d0 Hs. rewrite applyv_app.
+            apply (combine_sat _ (restore st2 e2) (cur e2)); [right; left; reflexivity|apply live_keeps; exact L2|exact (kle_trans _ _ _ Kst2 Ke)|].
+            apply S2. apply Se1. apply Sb. exact Hs. }
+      cbn in Hfv, Hfo. subst fv fo.
+      unfold fin, loop_finish. cbn [andb restore cur].
       destruct e as [|es er].
       * cbn [path_b] in He. destruct He as (_ & ->). rewrite app_nil_r.
         assert (Lx : live (cur e2)) by (destruct Hl; split; cbn; auto).
@@ -982,16 +1019,23 @@ Proof.
     + (* left through break *)
       assert (Hjb : is_jump OBrk) by (left; reflexivity).
       destruct (Eb1 OBrk t2 Hjb Hbrk) as (sc & Hin & Hq1 & _).
-      unfold fin. rewrite (loop_finish_keep fv _ _ sc Hin Hq1). cbn [restore cur].
+      unfold fin. rewrite (loop_finish_keep fo _ _ sc Hin Hq1). cbn [restore cur].
       destruct (F1 OBrk t2 (or_intror Hjb) Hbrk) as (Lb & _).
       destruct (F3 Lb) as (L4' & S4). split; [exact L4'|].
       intros v d0 Hs. rewrite applyv_app. apply S4.
       apply (F2' OBrk t2 v d0 _ (or_intror Hjb) Hbrk Hs). apply F2; assumption.
   - intros o t Hj H. cbn [path_s] in H. destruct H as (th & t2 & Hi & -> & H).
-    destruct H as [(-> & He)|[(X & _)|([X|X] & _)]];
+    destruct H as [(Hel & He)|[(X & _)|([X|X] & _)]];
       try (exfalso; subst o; destruct Hj; discriminate).
-    destruct e as [|es er]; [exfalso; cbn in He; destruct He as (X & _); apply (jump_not_norm o Hj X)|].
-    destruct (F4 eq_refl eq_refl) as (Le1 & Se1). destruct (Se Le1) as (_ & (Ce & _)).
+    assert (HE : live (cur e1) /\ forall v d0, satv v d0 (cur st) -> satv v (applyv th v d0) (cur e1)).
+    { destruct k; cbn [else_ok] in Hel; [| |destruct Hel].
+      - cbn in Hfv. subst fv.
+        destruct e as [|es er]; [exfalso; cbn in He; destruct He as (X & _); apply (jump_not_norm o Hj X)|].
+        destruct (F4 eq_refl eq_refl) as (Le1 & Se1). split; [exact Le1|].
+        intros v d0 Hs. apply (Se1 v d0); auto.
+      - destruct (FA eq_refl th Hel) as (Lb & Sb & _ & Le1 & Se1 & _). split; [exact Le1|].
+        intros v d0 Hs. apply Se1. apply Sb. exact Hs. }
+    destruct HE as (Le1 & Se1). destruct (Se Le1) as (_ & (Ce & _)).
     destruct (Ce o t2 Hj He) as (sc & Hin & Hq1 & Hq2 & Hk & Hs). exists sc.
     assert (X : In sc (loops fin)).
     { apply L4f. apply (exits_flow e2 _ sc Hin Hq1); [|exact L4].
@@ -999,10 +1043,15 @@ Proof.
     split; [right; exact X|split; [right; exact X|split; [exact Hq2|split; [exact (kle_trans _ _ _ Ke1 Hk)|]]]].
     intros v d0 Hv. rewrite applyv_app. apply Hs. apply (Se1 v d0); auto.
   - intros o t Hj H. cbn [path_s] in H. destruct H as (th & t2 & Hi & -> & H).
-    destruct H as [(-> & He)|[(X & _)|([X|X] & _)]];
+    destruct H as [(Hel & He)|[(X & _)|([X|X] & _)]];
       try (exfalso; subst o; destruct Hj; discriminate).
-    destruct e as [|es er]; [exfalso; cbn in He; destruct He as (X & _); apply (jump_not_norm o Hj X)|].
-    destruct (F4 eq_refl eq_refl) as (Le1 & Se1). destruct (Se Le1) as (_ & (_ & Ee)).
+    assert (Le1 : live (cur e1)).
+    { destruct k; cbn [else_ok] in Hel; [| |destruct Hel].
+      - cbn in Hfv. subst fv.
+        destruct e as [|es er]; [exfalso; cbn in He; destruct He as (X & _); apply (jump_not_norm o Hj X)|].
+        apply (F4 eq_refl eq_refl).
+      - apply (FA eq_refl th Hel). }
+    destruct (Se Le1) as (_ & (_ & Ee)).
     eapply hasll_incl; [|intros x Hx; right; exact Hx].
     eapply hasll_incl; [|exact L4f].
     apply (hasll_flow e2 _ (Ee o t2 Hj He)); [|exact L4].
